@@ -25,7 +25,9 @@ func word(r *sim.Rand) string {
 }
 
 // marker tokens survive the search analyzer intact and are unique enough to attribute
-func marker(r *sim.Rand) string { return fmt.Sprintf("kw%d", r.Intn(40)) }
+var markerPool = 40
+
+func marker(r *sim.Rand) string { return fmt.Sprintf("kw%d", r.Intn(markerPool)) }
 
 func genTitle(r *sim.Rand) string {
 	n := r.Range(0, 4)
@@ -111,7 +113,7 @@ func genLabels(r *sim.Rand, n int) []string {
 // ---- plan generation --------------------------------------------------------------------
 
 type weights struct {
-	newbug, edit, commit, push, pull, fetch, merge, restart, identmut, remove, clockjump, partition, cachesize, delclocks, query int
+	newbug, edit, commit, push, pull, fetch, merge, restart, identmut, remove, clockjump, partition, cachesize, delclocks, query, losecache int
 }
 
 // Generate builds the plan of one run. Everything is drawn from the run seed.
@@ -120,6 +122,10 @@ func (e *Engine) Generate(prop, tier string, seed uint64, run int) *sim.Plan {
 	r := sim.NewRand(rs)
 	p := &sim.Plan{Property: prop, Engine: "repsim", Tier: tier, Seed: seed, Run: run, RunSeed: rs, Cfg: map[string]interface{}{}}
 
+	markerPool = 40
+	if prop == "C12" || prop == "C11" {
+		markerPool = 4 // many bugs share a search token
+	}
 	nrep := r.Range(2, 3)
 	nhub := 1
 	if r.Chance(0.25) {
@@ -134,7 +140,7 @@ func (e *Engine) Generate(prop, tier string, seed uint64, run int) *sim.Plan {
 	faults := (run/ne)%2 == 1
 	var levels []string
 	for i := 0; i < nrep; i++ {
-		if r.Chance(0.5) {
+		if r.Chance(0.5) || prop == "C11" || prop == "C12" {
 			levels = append(levels, "cache")
 		} else {
 			levels = append(levels, "entity")
@@ -145,12 +151,19 @@ func (e *Engine) Generate(prop, tier string, seed uint64, run int) *sim.Plan {
 		maxSteps = 120
 	}
 	nsteps := r.Range(8, maxSteps)
+	if prop == "C12" {
+		nsteps = r.Range(20, maxSteps+20)
+	}
 
 	w := weights{newbug: 6, edit: 30, commit: 4, push: 14, pull: 18, fetch: 2, merge: 2}
 	switch prop {
 	case "C01", "C02", "C03", "C10":
 		// replication workload; identities are mutated on their home replica only
 		w.identmut = 3
+	case "C11":
+		w = weights{newbug: 8, edit: 30, commit: 6, push: 14, pull: 18, fetch: 1, merge: 2, remove: 3, restart: 4, cachesize: 3, losecache: 2, identmut: 4}
+	case "C12":
+		w = weights{newbug: 16, edit: 30, commit: 4, push: 10, pull: 14, restart: 2, cachesize: 2, identmut: 3, clockjump: 4}
 	case "C09":
 		w = weights{newbug: 3, edit: 6, push: 16, pull: 20, fetch: 2, merge: 2, identmut: 24, restart: 2}
 	case "C04":
@@ -163,7 +176,7 @@ func (e *Engine) Generate(prop, tier string, seed uint64, run int) *sim.Plan {
 	}
 	if faults {
 		w.partition = 3
-		if prop != "C05" {
+		if prop != "C05" && prop != "C11" && prop != "C12" {
 			w.restart += 2
 		}
 	}
@@ -205,11 +218,11 @@ func (e *Engine) Generate(prop, tier string, seed uint64, run int) *sim.Plan {
 			st.R = burstRep
 			st.Op = "edit"
 		} else {
-			ws := []int{w.newbug, w.edit, w.commit, w.push, w.pull, w.fetch, w.merge, w.restart, w.identmut, w.remove, w.clockjump, w.partition, w.cachesize, w.delclocks, w.query}
+			ws := []int{w.newbug, w.edit, w.commit, w.push, w.pull, w.fetch, w.merge, w.restart, w.identmut, w.remove, w.clockjump, w.partition, w.cachesize, w.delclocks, w.query, w.losecache}
 			if len(p.Steps) < 2 {
 				ws = []int{1}
 			}
-			st.Op = []string{"newbug", "edit", "commit", "push", "pull", "fetch", "merge", "restart", "identmut", "remove", "clockjump", "partition", "cachesize", "delclocks", "query"}[r.Weighted(ws)]
+			st.Op = []string{"newbug", "edit", "commit", "push", "pull", "fetch", "merge", "restart", "identmut", "remove", "clockjump", "partition", "cachesize", "delclocks", "query", "losecache"}[r.Weighted(ws)]
 			if st.Op == "edit" && r.Chance(0.15) {
 				burstRep, burstLeft = st.R, r.Range(1, 4)
 			}
@@ -260,9 +273,11 @@ func (e *Engine) Generate(prop, tier string, seed uint64, run int) *sim.Plan {
 			}
 		case "restart":
 			st.K = "clean"
-			if faults && r.Chance(0.5) {
-				st.K = "dirty"
+			if faults && r.Chance(0.5) && prop != "C11" && prop != "C12" {
+				st.K = "dirty" // C11/C12 sessions are cleanly closed (a stale cache file after a kill is C06's)
 			}
+		case "losecache":
+			st.N = r.Range(1, 3) // bit mask: 1 = cache directory, 2 = index directory
 		case "delclocks":
 			st.N = r.Range(1, 3) // bit mask: 1 = bugs-edit, 2 = bugs-create
 		case "clockjump":
@@ -270,7 +285,8 @@ func (e *Engine) Generate(prop, tier string, seed uint64, run int) *sim.Plan {
 		case "partition":
 			st.N = r.Intn(2)
 		case "cachesize":
-			st.N = r.Range(0, 3)
+			// never 0: with a limit of 0 Resolve evicts (and locks for ever) the very entity it returns
+			st.N = r.Range(1, 3)
 		case "identmut":
 			st.K = []string{"name", "email", "login", "avatar", "meta"}[r.Intn(5)]
 			st.S = word(r) + " " + word(r)
